@@ -39,7 +39,7 @@ class A(Adapter):
             cfg("j3m2", True, gen="random", j=3, m=2, o=3, d=2),
             cfg("toy", c02=True, gen="toy", j=5, m=4, o=4, d=4),
             cfg("j6m3", gen="random", j=6, m=3, o=4, d=5),
-            cfg("j2m4", gen="random", j=2, m=4, o=5, d=3),
+            cfg("j2m4", True, gen="random", j=2, m=4, o=5, d=3, c15=True),  # more machines than jobs
             cfg("j2m2d7", True, gen="random", j=2, m=2, o=3, d=7),  # few jobs, long operations: durations exceed every job / machine count
         ]
 
